@@ -579,6 +579,9 @@ def call_method(spec, fn, case):
     """a method of a class with object state: build the object from the state in `case['self']`, call, read the
     state back.  -> (('ok', value) | ('exc', class name), state after as {attr: value})"""
     cls = spec['cls']
+    if cls.get('ext'):                      # a class of an extension module of the translator: its own convention
+        import importlib
+        return importlib.import_module(cls['ext']).call_method(spec, fn, case, to_py)
     pycls = fn.__globals__[cls['name']]
     obj = pycls.__new__(pycls)
     if cls.get('dict_base'):
@@ -1555,6 +1558,23 @@ def snippet_functions():
 
 
 # ------------------------------------------------------------------ driver
+def _ext_modules(pids):
+    """extension modules of the translator (spec key `ext`) used by these properties: each brings its own runtime
+    module (`RT_IMPORT`), argument families (`FAMILIES`) and, for classes, `call_method`"""
+    import importlib
+    names = []
+    for pid in pids:
+        for sp in srctie_specs.SPECS.get(pid, []):
+            e = sp.get('ext') or (sp.get('cls') or {}).get('ext')
+            if e and e not in names:
+                names.append(e)
+    return [importlib.import_module(e) for e in names]
+
+
+def _ext_imports(pids):
+    return [m.RT_IMPORT for m in _ext_modules(pids)]
+
+
 def build_driver(pids, repo, snippets=False):
     """-> (lean source of the scratch driver, [(spec, translator, real function)])"""
     mods = {}
@@ -1564,15 +1584,18 @@ def build_driver(pids, repo, snippets=False):
             if spec not in mods[spec['module']]:
                 mods[spec['module']].append(spec)
     heap = any((sp.get('cls') or {}).get('heap') for ss in mods.values() for sp in ss)
-    body = ['import BoltonsVerif.PyHeap\nimport BoltonsVerif.C10.Model' if heap else 'import BoltonsVerif.PyRt',
-            'set_option linter.all false', '']
+    body = ['import BoltonsVerif.PyHeap\nimport BoltonsVerif.C10.Model' if heap else 'import BoltonsVerif.PyRt'] + [
+        'import BoltonsVerif.%s' % rt for rt in _ext_imports(pids)] + ['set_option linter.all false', '']
     fns = []
     for module_name in sorted(mods):
         text, infos = py2lean.translate_module(module_name, mods[module_name], repo)
         for i in infos:
             if i.get('error'):
                 raise common.InfraError('not translated: %s: %s' % (i['function'], i['error']))
-        body.append(text.replace('import BoltonsVerif.PyRt\n', '').replace('import BoltonsVerif.PyHeap\n', ''))
+        text = text.replace('import BoltonsVerif.PyRt\n', '').replace('import BoltonsVerif.PyHeap\n', '')
+        for rt in _ext_imports(pids):
+            text = text.replace('import BoltonsVerif.%s\n' % rt, '')
+        body.append(text)
         mod = sys.modules[module_name]
         for spec in mods[module_name]:
             obj = mod
@@ -1691,6 +1714,8 @@ def run(pids, quick=False, seed=0, verbose=True, snippets=False):
         return n_all, rep_all
     t0 = time.time()
     src, fns = build_driver(pids, common.REPO, snippets)
+    for m in _ext_modules(pids):
+        FAMILIES.update(m.FAMILIES)
     rng = random.Random('py2lean-selftest-%d' % seed)
     lines, meta = [], []
     for n, (spec, short, fn) in enumerate(fns):
@@ -1716,7 +1741,8 @@ def run(pids, quick=False, seed=0, verbose=True, snippets=False):
         with open(drv, 'w') as fh:
             fh.write(src)
         with common.BuildLock():
-            rc, out = common._run(['lake', 'build', 'BoltonsVerif.PyRt', 'BoltonsVerif.PyHeap', 'BoltonsVerif.C10.Model'])
+            rc, out = common._run(['lake', 'build', 'BoltonsVerif.PyRt', 'BoltonsVerif.PyHeap', 'BoltonsVerif.C10.Model'] + [
+                'BoltonsVerif.%s' % rt for rt in _ext_imports(pids)])
         if rc != 0:
             raise common.InfraError('cannot build BoltonsVerif.PyRt: ' + out[-500:])
         t1 = time.time()
@@ -2117,6 +2143,7 @@ def main(argv):
     pids = [a for a in argv[1:] if a.upper().startswith('C') and a[1:].isdigit()] or sorted(srctie_specs.SPECS)
     try:
         n = reject_tests() + reject_tests2() + reject_tests3()
+        n += sum(m.reject_tests() for m in _ext_modules([p.upper() for p in pids]) if hasattr(m, 'reject_tests'))
         n += run([p.upper() for p in pids], quick, seed, snippets='--no-snippets' not in argv)[0]
     except common.InfraError as e:
         print('infrastructure error: %s' % e)
